@@ -10,6 +10,7 @@ import core
 import env
 import pipeline
 import c05gen as G
+import c05opts as O
 from pipeline import A, R, SPCase
 from core import Exn
 from env import NOW, SP_ID, SP_ACS_POST, SP_ACS_REDIRECT
@@ -51,6 +52,7 @@ FACTORS = [
     ("shape", ["single", "nodata-first", "encrypted", "two-confirmations"]),
 ]
 G_IMPORTS = "Model.Status Model.Response Model.Endpoints"
+O_IMPORTS = "Model.Status Model.Response Model.Client Model.Endpoints Model.C05Opts"
 OUTSTANDING = {"req-1": "/came-from-1", "req-2": "/came-from-2"}
 
 
@@ -197,6 +199,96 @@ def run_service_urls(ctx):
     ctx.correspond("service_urls_per_binding", G_IMPORTS, "show_service_urls", "(list endp * str)", cases)
 
 
+def oracle_spelled(ctx, c, case, spec, got):
+    """the solicited clause for a configuration that SPELLS allow_unsolicited some way (no model involved): whenever
+    the spelling does not mean 'allowed' (absent, None, False, 'false', '', 0) an unsolicited response is refused"""
+    if not isinstance(got, list) or O.documented(c["spell"]) is not False or c["arrive"] not in G.BROWSER:
+        return
+    outs = G.OUT_VARIANTS[c["outs"]]
+    if spec["irt"] not in outs:
+        ctx.oracle_fail("unsolicited-accepted:allow_unsolicited-spelled=%s:class=%s:irt=%s" % (c["spell"], c["cls"], c["irt"]),
+                        "SP configured with allow_unsolicited %s (%s) accepted a response with InResponseTo %r; outstanding %r"
+                        % (c["spell"], c["cls"], spec["irt"], sorted(outs)), c)
+    for a in spec["assertions"] + spec["encrypted"]:
+        for sc in a["confirmations"]:
+            if sc.get("data", True) and sc["irt"] is not None and sc["irt"] != spec["irt"]:
+                ctx.oracle_fail("confirmation-names-other-request:allow_unsolicited-spelled=%s:class=%s:confs=%s:delivery=%s"
+                                % (c["spell"], c["cls"], c["confs"], c["delivery"]),
+                                "SP configured with allow_unsolicited %s (%s) accepted although a bearer confirmation names request %r and the response %r"
+                                % (c["spell"], c["cls"], sc["irt"], spec["irt"]), c)
+
+
+def run_spellings(ctx):
+    """every spelling of allow_unsolicited x configuration class x solicited / unsolicited message, on long-lived SP
+    objects (one per spelling and class, calls interleave in seeded order) vs Model.C05Opts"""
+    q = ctx.quick
+    # (a) the option as the client object holds it (truth value) vs effective_unsolicited
+    cases = []
+    for cls in O.CLASSES:
+        for sp in O.SPELLINGS:
+            case = O.SPCaseO(spell=sp, cls=cls)
+            val = getattr(case.sp(), "allow_unsolicited", None)
+            cases.append(dict(id="%s/%s" % (cls, sp), coq=case.effective_coq(), impl=bool(val), show=dict(kind="OV", spell=sp, cls=cls)))
+            ctx.nontriv(("option", cls, sp))
+            doc = O.documented(sp)
+            if doc is not None and bool(val) != doc:
+                ctx.oracle_fail("option-value:allow_unsolicited-spelled=%s:class=%s" % (sp, cls),
+                                "client.allow_unsolicited is %r for the spelling %s, which means %s" % (val, sp, doc), dict(kind="OV", spell=sp, cls=cls))
+    ctx.correspond("sp_option_effective", O_IMPORTS, "show_effective", "((str * list (str * section)) * (section * spelling))", cases)
+
+    # (b) spelling x class x message
+    ocells = O.block_spellings(q)
+    ctx.rng.shuffle(ocells)
+    cases, seen = [], {}
+    with env.Clock(NOW):
+        for n, c in enumerate(ocells):
+            case, spec = O.build(c)
+            xml = pipeline.build_xml(spec)
+            coq, ids = pipeline.case_coq(case, spec, NOW)
+            got = G.call_sp(case.sp(), case, xml, ids)
+            cases.append(dict(id="o%d" % n, coq=coq, impl=G.verdict(got), show=c))
+            ctx.nontriv(tuple(sorted(c.items())))
+            acc = isinstance(got, list)
+            ctx.count("O:%s:%s" % (c["spell"], "accepted" if acc else "rejected"))
+            oracle_spelled(ctx, c, case, spec, got)
+            mk = tuple(sorted((k, v) for k, v in c.items() if k not in ("spell", "msg")))
+            seen[(c["spell"], mk)] = (acc, c)
+            if n % 600 == 0:
+                ctx.sample(dict(cell=c, outcome=got))
+    # a documented spelling behaves exactly like the boolean it stands for, on every message (no model involved)
+    for (sp, mk), (acc, c) in seen.items():
+        twin = O.TWIN.get(sp)
+        if twin is not None and (twin, mk) in seen and seen[(twin, mk)][0] != acc:
+            ctx.oracle_fail("spelling-differs-from-boolean:allow_unsolicited-spelled=%s:class=%s:irt=%s:scd=%s" % (sp, c["cls"], c["irt"], c["scd"]),
+                            "the same response is %s by an SP configured with allow_unsolicited %s and %s with %s"
+                            % ("accepted" if acc else "refused", sp, "accepted" if seen[(twin, mk)][0] else "refused", twin), c)
+    ctx.correspond("sp_option_spellings", O_IMPORTS, "show_accept_spelled", "(scfg * response)", cases, shard=250)
+
+    # (c) histories: a FRESH SP object per spelling and class, solicited / unsolicited calls alternate
+    cases = []
+    with env.Clock(NOW):
+        for cls in O.CLASSES:
+            for spn in O.SPELLINGS:
+                if q and cls != "SPConfig" and spn not in O.CORE:
+                    continue
+                hist = O.history(ctx.rng, spn, cls)
+                sp, terms, outs, case0 = None, [], [], None
+                for c in hist:
+                    case, spec = O.build(c)
+                    if sp is None:
+                        sp, case0 = case.fresh_sp(), case
+                    xml = pipeline.build_xml(spec)
+                    rc, ids = pipeline.response_coq(spec, case.enc_keys)
+                    got = G.call_sp(sp, case, xml, ids)
+                    terms.append("(%s, %s, %s)" % (SPCase.coq(case, NOW, spec.get("destination")), core.cstr(G.BIND[c["arrive"]]), rc))
+                    outs.append(G.verdict(got))
+                    oracle_spelled(ctx, dict(c, position=len(outs) - 1, history=hist[:len(outs)]), case, spec, got)
+                cases.append(dict(id="oh/%s/%s" % (cls, spn), coq="(%s, [%s])" % (case0.coq(NOW), "; ".join(terms)), impl=outs, show=hist))
+                ctx.nontriv(("ohistory", json.dumps(hist, sort_keys=True)))
+                ctx.count("OH:%d-accepted" % sum(isinstance(o, list) for o in outs))
+    ctx.correspond("sp_option_spelling_history", O_IMPORTS, "show_spelled_calls", "(scfg * list call)", cases, shard=20)
+
+
 def run(ctx):
     env.tool_inprocess(True)
     cs = cells(ctx)
@@ -259,6 +351,9 @@ def run(ctx):
             ctx.count("history:%d-accepted" % sum(isinstance(o, list) for o in outs))
     ctx.correspond("sp_call_history", G_IMPORTS, "show_calls", "(list endp * list call)", cases, shard=20)
 
+    # ---- the spellings of allow_unsolicited in the configuration
+    run_spellings(ctx)
+
 
 def replay(ctx, payload):
     env.tool_inprocess(True)
@@ -273,6 +368,20 @@ def replay(ctx, payload):
         elif isinstance(cell, dict) and "call" in cell and "layout" in cell:
             sp = G.SPCaseE(layout=cell["layout"]).sp()
             print("implementation: service_urls(%s) = %r on table %r" % (cell["binding"], sp.service_urls(G.BIND[cell["binding"]]), G.table_conf(cell["layout"])))
+        elif isinstance(cell, dict) and cell.get("kind") == "OV":
+            sp = O.SPCaseO(spell=cell["spell"], cls=cell["cls"]).fresh_sp()
+            print("implementation: allow_unsolicited spelled %s on a %s configuration -> client.allow_unsolicited = %r"
+                  % (cell["spell"], cell["cls"], getattr(sp, "allow_unsolicited", None)))
+        elif (isinstance(cell, dict) and "spell" in cell) or (isinstance(cell, list) and cell and "spell" in cell[0]):
+            hist = cell if isinstance(cell, list) else cell.get("history") or [cell]
+            sp = None
+            for c in hist:
+                case, spec = O.build(c)
+                sp = sp or case.fresh_sp()
+                xml = pipeline.build_xml(spec)
+                _, ids = pipeline.response_coq(spec, case.enc_keys)
+                print("allow_unsolicited spelled %-8s (%s) call over %-8s InResponseTo %-17s confirmation %-17s -> implementation outcome: %r"
+                      % (c["spell"], c["cls"], c["arrive"], c["irt"], c["scd"], G.call_sp(sp, case, xml, ids)))
         elif isinstance(cell, (dict, list)) and (isinstance(cell, list) or "history" in cell or "kind" in cell):
             # a per-binding cell, or a history (list of cells) on one fresh SP object
             hist = cell if isinstance(cell, list) else cell.get("history") or [cell]
